@@ -58,6 +58,7 @@ Lemma main_outcome fuel genv g out0 : match_genv G genv g -> fuel_small fuel ->
   match eval_expr fns fuel genv [] (ECall (pmain pr) []) out0 with
   | Ok (VInt z) out => good (fun n => run_main_f n M g out0) (VDone out (z mod 256))
   | Fault FAssert out => good (fun n => run_main_f n M g out0) (VError EAssert out)
+  | Fault FOob out => good (fun n => run_main_f n M g out0) (VError EOob out)
   | _ => True
   end.
 Proof.
@@ -70,14 +71,17 @@ Proof.
   { change (g_fns (prog_genv pr)) with (map fname (pfns pr)) in Hi. rewrite Ei in Hi. inversion Hi. congruence. }
   subst idx.
   unfold fns in *. destruct (eval_expr (pfns pr) (S fuel) genv [] (ECall (pmain pr) []) out0) as [v out|f out| |]; try exact I.
-  - destruct v as [z|?| |?]; try exact I. cbn [rpost mval_of] in HR.
+  - destruct v as [z|?| |?|?]; try exact I. cbn [rpost mval_of] in HR.
     destruct (reach_terminal M s0 _ (fun m (H : m = MDone out (MInt z) g) => term_eq m _ H I) HR) as (n & r & Hrun & [Hr|[o Ho]]).
     + left. exists n. intros k. unfold run_main_f. rewrite Hinit, Hrun, Hr. reflexivity.
     + right. exists n, o. intros k. unfold run_main_f. rewrite Hinit, Hrun, Ho. reflexivity.
-  - destruct f; try exact I. cbn [rpost] in HR.
-    destruct (reach_terminal M s0 _ (fun m (H : m = MErr EAssert out) => term_eq m _ H I) HR) as (n & r & Hrun & [Hr|[o Ho]]).
-    + left. exists n. intros k. unfold run_main_f. rewrite Hinit, Hrun, Hr. reflexivity.
-    + right. exists n, o. intros k. unfold run_main_f. rewrite Hinit, Hrun, Ho. reflexivity.
+  - destruct f; try exact I; cbn [rpost] in HR.
+    + destruct (reach_terminal M s0 _ (fun m (H : m = MErr EAssert out) => term_eq m _ H I) HR) as (n & r & Hrun & [Hr|[o Ho]]).
+      * left. exists n. intros k. unfold run_main_f. rewrite Hinit, Hrun, Hr. reflexivity.
+      * right. exists n, o. intros k. unfold run_main_f. rewrite Hinit, Hrun, Ho. reflexivity.
+    + destruct (reach_terminal M s0 _ (fun m (H : m = MErr EOob out) => term_eq m _ H I) HR) as (n & r & Hrun & [Hr|[o Ho]]).
+      * left. exists n. intros k. unfold run_main_f. rewrite Hinit, Hrun, Hr. reflexivity.
+      * right. exists n, o. intros k. unfold run_main_f. rewrite Hinit, Hrun, Ho. reflexivity.
 Qed.
 
 Lemma match_genv_nil : match_genv G [] [].
@@ -87,6 +91,7 @@ Theorem vm_sim_run fuel : fuel_small fuel ->
   match run_ref fuel pr with
   | Done out ex => good (fun n => run_vm n M) (VDone out ex)
   | Faulted FAssert out => good (fun n => run_vm n M) (VError EAssert out)
+  | Faulted FOob out => good (fun n => run_vm n M) (VError EOob out)
   | _ => True
   end.
 Proof.
@@ -98,10 +103,10 @@ Proof.
     pose proof (main_outcome fuel [] [] [] match_genv_nil Hfuel) as Hm.
     assert (Hrv : forall n, run_vm n M = run_main_f n M [] []) by (intros n; rewrite run_vm_eq, HM; reflexivity).
     destruct (eval_expr fns fuel [] [] (ECall (pmain pr) []) []) as [v out|f out| |]; try exact I.
-    + destruct v as [z|?| |?]; try exact I.
+    + destruct v as [z|?| |?|?]; try exact I.
       destruct Hm as [[n Hn]|[n [o Hn]]]; [left; exists n|right; exists n, o]; intros k; rewrite Hrv; apply Hn.
-    + destruct f; try exact I.
-      destruct Hm as [[n Hn]|[n [o Hn]]]; [left; exists n|right; exists n, o]; intros k; rewrite Hrv; apply Hn.
+    + destruct f; try exact I;
+        (destruct Hm as [[n Hn]|[n [o Hn]]]; [left; exists n|right; exists n, o]; intros k; rewrite Hrv; apply Hn).
   - (* globals: __init__ runs first *)
     destruct Hsmall as [(Hok & Hgok & Hnd & Hgl) Hms]. specialize (Hms M Hcomp).
     set (ife := {| fe_name := ini; fe_arity := 0; fe_off := 0; fe_len := length ibs; fe_locals := 0 |}) in *.
@@ -120,6 +125,7 @@ Proof.
       - unfold G, prog_genv. cbn [g_fns]. rewrite map_length. rewrite HM in Hsm4. cbn [m_fns] in Hsm4. rewrite app_length in Hsm4. unfold fns in Hles. lia. }
     destruct (compile_globals_wf G _ _ _ _ _ Ecg Hlims) as [Wcg _].
     { unfold G, prog_genv. cbn [g_globals]. rewrite map_length. lia. }
+    { eapply Forall_impl; [|exact Hgok]. intros gg Hgg. apply expr_ok_lit_small. exact Hgg. }
     assert (Hicode : fn_code M ife (cg ++ epi)).
     { split; [apply Forall_app; split; [exact Wcg|exact epi_wf]|]. exists ibs. split; [exact Ee|]. split; [reflexivity|].
       rewrite HM. cbn [m_code fe_len fe_off ife skipn]. unfold byte in *. rewrite firstn_app, firstn_all, Nat.sub_diag. cbn [firstn].
@@ -153,19 +159,22 @@ Proof.
         { intros n2 k. rewrite run_vm_eq, Hnz, Hinit. replace (n1 + n2 + k) with (n1 + (n2 + k)) at 1 by lia.
           rewrite Hrun, Hr. f_equal. lia. }
         destruct (eval_expr fns fuel genv [] (ECall (pmain pr) []) out0) as [v out|f out| |]; try exact I.
-        -- destruct v as [z|?| |?]; try exact I.
+        -- destruct v as [z|?| |?|?]; try exact I.
            destruct Hm as [[n Hn]|[n [o Hn]]]; [left; exists (n1 + n)|right; exists (n1 + n), o]; intros k; rewrite Hrv; apply Hn.
-        -- destruct f; try exact I.
-           destruct Hm as [[n Hn]|[n [o Hn]]]; [left; exists (n1 + n)|right; exists (n1 + n), o]; intros k; rewrite Hrv; apply Hn.
+        -- destruct f; try exact I;
+             (destruct Hm as [[n Hn]|[n [o Hn]]]; [left; exists (n1 + n)|right; exists (n1 + n), o]; intros k; rewrite Hrv; apply Hn).
       * assert (Hd : good (fun n => run_vm n M) (VError ECallDepth o)).
         { left. exists n1. intros k. rewrite run_vm_eq, Hnz, Hinit, Hrun, Ho. reflexivity. }
         destruct (eval_expr fns fuel genv [] (ECall (pmain pr) []) out0) as [v out|f out| |]; try exact I.
-        -- destruct v as [z|?| |?]; try exact I. right. destruct Hd as [[n Hn]|[n [o' Hn]]]; [exists n, o|exists n, o']; exact Hn.
-        -- destruct f; try exact I. right. destruct Hd as [[n Hn]|[n [o' Hn]]]; [exists n, o|exists n, o']; exact Hn.
-    + destruct f; try exact I. cbn [rpost] in HR'.
-      destruct (reach_terminal M _ _ (fun m (H : m = MErr EAssert out0) => term_eq m _ H I) HR') as (n1 & r & Hrun & [Hr|[o Ho]]).
-      * left. exists n1. intros k. rewrite run_vm_eq, Hnz, Hinit, Hrun, Hr. reflexivity.
-      * right. exists n1, o. intros k. rewrite run_vm_eq, Hnz, Hinit, Hrun, Ho. reflexivity.
+        -- destruct v as [z|?| |?|?]; try exact I. right. destruct Hd as [[n Hn]|[n [o' Hn]]]; [exists n, o|exists n, o']; exact Hn.
+        -- destruct f; try exact I; (right; destruct Hd as [[n Hn]|[n [o' Hn]]]; [exists n, o|exists n, o']; exact Hn).
+    + destruct f; try exact I; cbn [rpost] in HR'.
+      * destruct (reach_terminal M _ _ (fun m (H : m = MErr EAssert out0) => term_eq m _ H I) HR') as (n1 & r & Hrun & [Hr|[o Ho]]).
+        -- left. exists n1. intros k. rewrite run_vm_eq, Hnz, Hinit, Hrun, Hr. reflexivity.
+        -- right. exists n1, o. intros k. rewrite run_vm_eq, Hnz, Hinit, Hrun, Ho. reflexivity.
+      * destruct (reach_terminal M _ _ (fun m (H : m = MErr EOob out0) => term_eq m _ H I) HR') as (n1 & r & Hrun & [Hr|[o Ho]]).
+        -- left. exists n1. intros k. rewrite run_vm_eq, Hnz, Hinit, Hrun, Hr. reflexivity.
+        -- right. exists n1, o. intros k. rewrite run_vm_eq, Hnz, Hinit, Hrun, Ho. reflexivity.
 Qed.
 
 End Final.
@@ -189,6 +198,16 @@ Proof.
   destruct H as [[n Hn]|[n [o Hn]]]; [left; exists (n + 0)|right; exists (n + 0), o]; apply Hn.
 Qed.
 
+(* an index out of range: the reference run stops with the fault FOob, the VM with its bounds error, same output *)
+Theorem vm_correct_oob pr M fuel out :
+  compile_program pr = Some M -> small_program pr -> fuel_small fuel ->
+  run_ref fuel pr = Faulted FOob out ->
+  (exists fuel', run_vm fuel' M = VError EOob out) \/ (exists fuel' o, run_vm fuel' M = VError ECallDepth o).
+Proof.
+  intros Hc Hs Hf Hr. pose proof (vm_sim_run pr M Hc Hs fuel Hf) as H. rewrite Hr in H.
+  destruct H as [[n Hn]|[n [o Hn]]]; [left; exists (n + 0)|right; exists (n + 0), o]; apply Hn.
+Qed.
+
 (* with the frame-stack limit as a hypothesis on the machine run *)
 Definition depth_ok (M : vmodule) : Prop := forall fuel' o, run_vm fuel' M <> VError ECallDepth o.
 
@@ -205,5 +224,13 @@ Corollary vm_correct_assert_depth_ok pr M fuel out :
   run_ref fuel pr = Faulted FAssert out -> exists fuel', run_vm fuel' M = VError EAssert out.
 Proof.
   intros Hc Hs Hf Hd Hr. destruct (vm_correct_assert pr M fuel out Hc Hs Hf Hr) as [H|[n [o H]]]; [exact H|].
+  exfalso. exact (Hd n o H).
+Qed.
+
+Corollary vm_correct_oob_depth_ok pr M fuel out :
+  compile_program pr = Some M -> small_program pr -> fuel_small fuel -> depth_ok M ->
+  run_ref fuel pr = Faulted FOob out -> exists fuel', run_vm fuel' M = VError EOob out.
+Proof.
+  intros Hc Hs Hf Hd Hr. destruct (vm_correct_oob pr M fuel out Hc Hs Hf Hr) as [H|[n [o H]]]; [exact H|].
   exfalso. exact (Hd n o H).
 Qed.
